@@ -109,7 +109,6 @@ def _check_header(bad, u, lp):
     if e['version'] >= 5:
         bad('header.address_size', e['address_size'], hd['address_size'])
         bad('header.segment_selector_size', 0, hd['segment_selector_size'])
-    bad('extent.start', u['start'], lp.program_start_offset)
     bad('extent.end', u['end'], lp.program_end_offset)
 
 
@@ -120,8 +119,12 @@ def _check_rows(run, brief, tag, u, entries):
         run.mismatch('rows.count', tag, brief, len(exp), len(obs))
         return
     es = [bool(r[7]) for r in exp]
+    # the position of a row is the pair (address, op_index) (DWARF5 6.2.2): compared jointly
+    run.compare('rows.address', tag, brief, [[denote(r[0]), r[1]] for r in exp], [[s.address, s.op_index] for s in obs])
     for i, f in enumerate(ROW_FIELDS):
-        ecol = [denote(r[i]) if f == 'address' else r[i] for r in exp]
+        if i < 2:
+            continue
+        ecol = [r[i] for r in exp]
         ocol = [getattr(s, f) for s in obs]
         if f in BOOL_FIELDS:
             ocol = [bool(x) for x in ocol]
@@ -137,7 +140,6 @@ def _check_rows(run, brief, tag, u, entries):
 
 def _replay(run, case, n):
     units = case['units']
-    gap = ',header_gap' if case['gap'] else ''
     brief = {'mode': case['mode'], 'le': case['le'], 'line_b64': core.b64(case['line']), 'info_b64': core.b64(case['info']),
              'abbrev_b64': core.b64(case['abbrev']), 'prog': case['prog'], 'cus': case['cus'],
              'units': [[u['id'], u['off']] for u in units]}
@@ -163,8 +165,8 @@ def _replay(run, case, n):
         order.reverse()
     for i in order:
         u = units[case['cus'][i] - 1]
-        tag = u['tag'] + gap
-        htag = ('v5' if u['hdr']['version'] >= 5 else 'v234') + gap
+        tag = u['tag']
+        htag = 'v5' if u['hdr']['version'] >= 5 else 'v234'
 
         def bad(clause, e, o, _t=htag):
             run.compare(clause, _t, brief, e, o)
@@ -178,6 +180,11 @@ def _replay(run, case, n):
             continue
         try:
             _check_header(bad, u, lp)
+            # header_length locates the program (6.2.4); units with extra bytes between the tables and the
+            # program have their own signature, and their rows are not compared when the start is wrong
+            if not run.compare('extent.start', 'header_gap' if case['gap'] else htag, brief, u['start'],
+                               lp.program_start_offset):
+                continue
             if pattern == 1:
                 _check_tables(bad, u, lp, after=False)
         except Exception as ex:
@@ -186,7 +193,7 @@ def _replay(run, case, n):
         try:
             entries = lp.get_entries()
         except Exception as ex:
-            run.mismatch('decode', tag, brief, '%d rows' % len(u['rows']), 'exc:%s:%s' % (type(ex).__name__, ex))
+            run.mismatch('decode', 'unknown_std' if u['unk'] else tag, brief, '%d rows' % len(u['rows']), 'exc:%s:%s' % (type(ex).__name__, ex))
             continue
         _check_rows(run, brief, tag, u, entries)
         try:
@@ -218,13 +225,14 @@ def check(run):
     plans = [('LineProgram_quick' if quick else 'LineProgram_thorough', None, None)]
     if not quick:
         plans.append(('LineProgram_len3', None, None))
-    plans.append(('LineProgram_sim', 150 if quick else 3000, 42))
+    plans.append(('LineProgram_sim', 400 if quick else 4000, 42))
     seen = set()
     by_mode = {}
     by_tag = {}
     n = 0
     for cfg, sim, depth in plans:
-        res = run.tlc('LineProgram', cfg, simulate=sim, depth=depth, workers=(1 if sim else None), timeout=3000)
+        res = run.tlc('LineProgram', cfg, simulate=sim, depth=depth, workers=(1 if sim else None), timeout=3000,
+                      env={'JAVA_TOOL_OPTIONS': '-Xss32m'})
         for case in run.cases(res.out):
             key = core.digest([case['line'], case['info']])
             if key in seen:
